@@ -382,7 +382,7 @@ def duration_components_return_types(fi: int, di: int) -> bool:
     return r[0] is True and r[1] == want and r[2] == want and (type(r[1]) is int) == (fi != 5) and match_sequence_type(r[1], rt, P31)
 
 
-TOK_TREAT = parse_all({'fn': '($v treat as function(*), count($v treat as item()+))', 'map': 'map:size($v treat as map(*))', 'arr': 'array:size($v treat as array(*))',
+TOK_TREAT_STRUCT = parse_all({'fn': '($v treat as function(*), count($v treat as item()+))', 'map': 'map:size($v treat as map(*))', 'arr': 'array:size($v treat as array(*))',
                        'mapk': '($v treat as map(xs:integer, xs:integer))($k)', 'bad_arr': '$v treat as array(*)', 'bad_map': '$v treat as map(xs:string, item()*)',
                        'call': '($f treat as function(xs:integer) as xs:integer)($k)'})
 
@@ -398,7 +398,7 @@ def treat_as_structured_types(k: int, k2: int) -> bool:
     m = VALUES['m_int_int'].evaluate(XPathContext(item=1, variables=dict(k=k, k2=k2, s='a')))
     a = VALUES['a_int'].evaluate(XPathContext(item=1, variables=dict(k=k, k2=k2, s='a')))
     f = P31.parse('function($x as xs:integer) as xs:integer { $x + $y }').evaluate(XPathContext(item=1, variables=dict(y=k2)))
-    run = lambda key, **v: TOK_TREAT[key].evaluate(XPathContext(item=7, variables=v))   # noqa: E731
+    run = lambda key, **v: TOK_TREAT_STRUCT[key].evaluate(XPathContext(item=7, variables=v))   # noqa: E731
     r = run('fn', v=f)
     if not (isinstance(r, list) and len(r) == 2 and r[0] is f and r[1] == 1):
         return False
